@@ -53,6 +53,7 @@ CANARY = b"\xc3\xa5SHAREDATA-canary-\xe2\x82\xac"   # every stored share byte st
 # in-process HTTP storage server (shared with C31)
 # =============================================================================
 _patched = {}
+SWISSNUMS_IN_PROCESS = []      # swissnum of every HTTPServer created in this process, oldest first
 
 
 def _install_reactor_patches(clock):
@@ -92,6 +93,8 @@ class HttpStore(object):
         self.swissnum = swissnum
         self.ss = StorageServer(basedir, nodeid, clock=self.clock)
         self.http_server = HTTPServer(self.clock, self.ss, swissnum)
+        if swissnum not in SWISSNUMS_IN_PROCESS:
+            SWISSNUMS_IN_PROCESS.append(swissnum)
         self.treq = StubTreq(self.http_server.get_resource())
         self.client = StorageClient(DecodedURL.from_text("http://127.0.0.1"), client_swissnum or swissnum,
                                     treq=self.treq, pool=None, clock=self.clock)
@@ -983,8 +986,70 @@ class History(object):
         self.attack("slot-recreate-%d" % n, byname["mutable_read_test_write"],
                     force={"target": (si, shares[0]), "secret": w_old, "recipe": "previous-owners-enabler", "kind": "WRITE_ENABLER"})
 
+    def two_servers_scenario(self):
+        """One process, two HTTP storage servers with different swissnums (they share the class-level
+        Klein app).  Every endpoint is first used on one server with its own swissnum, then the other
+        server is asked with the FIRST server's swissnum -- and the other way round.  A request without
+        THIS server's swissnum gets 401 and changes nothing."""
+        ctx = self.ctx
+        r = self.r
+        other_dir = self.dir + "-second"
+        shutil.rmtree(other_dir, ignore_errors=True)
+        os.makedirs(other_dir)
+        sw2 = rb(r, len(self.swissnum))
+        while sw2 == self.swissnum:
+            sw2 = rb(r, len(self.swissnum) or 1)
+        second = HttpStore(other_dir, sw2, clock=self.store.clock)
+        servers = [("first", self.store), ("second", second)]
+        si, sh = rb(r, 16), 0
+        n = 0
+        try:
+            for route in self.routes:
+                method = route.methods[0]
+                path = build_path(route.url, si, sh)
+                for (own_name, own), (other_name, other) in (servers, servers[::-1]):
+                    def request(store, swissnum):
+                        extra, body, _ = self.body_for(route, si, sh, False, valid=True)
+                        headers = [("Authorization", b"Tahoe-LAFS " + b64(swissnum))]
+                        for member, kind in self.members:
+                            if member in route.required:
+                                headers.append(("X-Tahoe-Authorization", kind.encode("ascii") + b" " + b64(rb(r, 32))))
+                        return store.raw(method, path, headers + extra, body)
+                    # the endpoint is used on `own` with its own swissnum ...
+                    try:
+                        request(own, own.swissnum)
+                    except Exception as e:      # noqa
+                        ctx.count("legit-op-failed:" + type(e).__name__)
+                    # ... then `other` is asked with own's swissnum, and with the swissnums of the oldest
+                    # servers of this process (whoever used the endpoint first)
+                    foreign = [(own.swissnum, "the %s server's" % own_name)]
+                    for i, sw in enumerate(SWISSNUMS_IN_PROCESS[:1]):
+                        if sw != other.swissnum and sw != own.swissnum:
+                            foreign.append((sw, "that of server #%d of this process" % i))
+                    for presented, whose in foreign:
+                        before = full_state(other, [si])
+                        code, rbody, _ = request(other, presented)
+                        after = full_state(other, [si])
+                        diff = state_diff(before, after)
+                        case = {"history": self.hidx, "step": "two-servers-%d" % n, "route": route.name, "method": method, "path": path,
+                                "asked": other_name + " server", "swissnum_presented": whose, "status": code}
+                        n += 1
+                        ctx.case(None, kind="%s:other-servers-swissnum" % route.name)
+                        ctx.count("status:%d" % code)
+                        if 200 <= code < 300 or diff:
+                            ctx.oracle_fail("no-swissnum-request-accepted:" + route.name,
+                                            "%s %s on the %s server with %s swissnum (same process, endpoint already used by that server) got %d%s"
+                                            % (method, route.name, other_name, whose, code, ", state changed: " + diff if diff else ""),
+                                            case=case, expected="401 and unchanged state", observed={"status": code, "state_change": diff})
+                        elif code != 401:
+                            ctx.oracle_fail("no-swissnum-wrong-status:" + route.name,
+                                            "request with another server's swissnum answered %d, not 401" % code, case=case, expected=401, observed=code)
+        finally:
+            shutil.rmtree(other_dir, ignore_errors=True)
+
     def run(self, nsteps):
         self.setup()
+        self.two_servers_scenario()
         self.cross_upload_scenario()
         self.full_disk_scenario()
         self.slot_recreate_scenario()
